@@ -28,7 +28,7 @@ inductive ChainL (R : N → N → Prop) (E : Env N) (Signed : Key → Obj N → 
       Verifies Signed E.anchorKey o → ChainL R E Signed [E.anchorName] o
   | step (o : Obj N) (kn : N) (c : Obj N) (k : Key) (l : List N) :
       o.keyLoc = some kn → kn ≠ E.anchorName → R o.name kn →
-      E.world kn = some (.data c) → c.name = kn → c.content = some k →
+      E.world (certInterest kn) = some (.data c) → c.name = kn → c.content = some k →
       Verifies Signed k o → ChainL R E Signed l c → ChainL R E Signed (kn :: l) o
 
 variable {R R' : N → N → Prop} {E : Env N} {Signed : Key → Obj N → Prop}
@@ -62,7 +62,7 @@ theorem ChainL.head {l : List N} {o : Obj N} (h : ChainL R E Signed l o) : o.key
   | anchor _ hk _ _ => simpa using hk
   | step _ _ _ _ _ hk _ _ _ _ _ _ _ => simpa using hk
 
-theorem chainL_of_chainD (h : ∀ a b, E.allowed a b = true → R a b) :
+theorem chainL_of_chainD (h : ∀ a b, E.allowed a b = .ok true → R a b) :
     ∀ d o, ChainD E Signed d o → ∃ l, l.length = d + 1 ∧ ChainL R E Signed l o := by
   intro d o hc
   induction hc with
@@ -71,7 +71,7 @@ theorem chainL_of_chainD (h : ∀ a b, E.allowed a b = true → R a b) :
     obtain ⟨l, hl, hch⟩ := ih
     exact ⟨kn :: l, by simp [hl], .step o kn c k l hk hn (h _ _ ha) hw hcn hcc hv hch⟩
 
-theorem chainD_of_chainL (h : ∀ a b, R a b → E.allowed a b = true) :
+theorem chainD_of_chainL (h : ∀ a b, R a b → E.allowed a b = .ok true) :
     ∀ l o, ChainL R E Signed l o → ChainD E Signed (l.length - 1) o := by
   intro l o hc
   induction hc with
@@ -103,14 +103,19 @@ theorem SchemaLink.keyMatched {m : Lvs.Model} {fns : Lvs.PureEnv} {pkt key : LNa
   exact ⟨k, σ, kn, σ', hk, hkm⟩
 
 theorem lvsAllowed_eq_true (m : Lvs.Model) (env : Lvs.FnEnv) (pkt key : LName) :
-    lvsAllowed m env pkt key = true ↔ Lvs.check m env pkt key = .ok true := by
+    lvsAllowed m env pkt key = .ok true ↔ Lvs.check m env pkt key = .ok true := by
   unfold lvsAllowed
-  split
-  · rename_i h; simp [h]
-  · rename_i h
-    constructor
-    · intro hf; cases hf
-    · intro hc; exact absurd hc h
+  cases Lvs.check m env pkt key with
+  | ok b => simp
+  | error e => simp
+
+/-- the validator's signing check raises exactly when `Checker.check` does -/
+theorem lvsAllowed_error (m : Lvs.Model) (env : Lvs.FnEnv) (pkt key : LName) (e : PyErr) :
+    lvsAllowed m env pkt key = .error e ↔ ∃ e', Lvs.check m env pkt key = .error e' ∧ pyOfLvs e' = e := by
+  unfold lvsAllowed
+  cases Lvs.check m env pkt key with
+  | ok b => simp
+  | error e' => simp
 
 /-- the loader accepted the model -/
 theorem sane_of_sanityCheck {m : Lvs.Model} (h : Lvs.sanityCheck m = .ok ()) : Lvs.Sane m := by
